@@ -58,11 +58,8 @@ package file
 //@ ensures load-failure-is-returned: err == nil ==> loadFailed == old(loadFailed)
 //@ ensures error-means-zero: err != nil ==> result == 0
 
-// (shape: the Links field of a dag-pb node is a list by the dag-pb schema's typing; multi-block file
-// nodes are only ever made from dag-pb substrates by the reifier. Shape clauses are assumed for
-// every obligation kind, including the claimed nil-result sites, and listed as assumptions.)
 //@ func (*file.shardNodeFile).lengthFromLinks
-//@ shape links-is-a-list: isList(lookupStr(s.substrate, "Links"))
+//@ domain links-is-a-list: isList(lookupStr(s.substrate, "Links"))
 //@ ensures measuring-declared-sizes-requests-no-block: sizesDeclared(s) ==> loads == old(loads)
 //@ ensures load-failure-is-returned: err == nil ==> loadFailed == old(loadFailed)
 //@ ensures sum-of-the-childrens-sizes: err == nil ==> result == startOf(s, nkids(s))
@@ -114,6 +111,9 @@ package file
 // (C14, totality: the constructor makes no errors of its own -- it can only pass on a failed Links
 // lookup or, for a childless node, the failure to decode its Data field; in particular a node with
 // links is accepted whatever its recorded sizes say.)
+// Representation invariant of a multi-block file node: the Links field of its substrate is a list
+// (the constructor refuses anything else, F14), so the readers can iterate it.
+//@ typeinv file.shardNodeFile: links-is-a-list: isList(lookupStr(self.substrate, "Links"))
 //@ func file.NewUnixFSFile
 //@ forbids fmt.Errorf errors.New
 //@ ensures no-load: loads == old(loads)
@@ -173,7 +173,7 @@ package file
 //@ func (*file.shardNodeReader).makeReader
 //@ loop 0 invariant skipped-children-are-not-opened: len(readers) == 0 ==> loads == old(loads)
 //@ domain well-sized: sizesOK(s.shardNodeFile) && sizesDeclared(s.shardNodeFile) && 0 <= s.offset && s.offset < (1 << 62)
-//@ shape links-is-a-list: isList(lookupStr(s.shardNodeFile.substrate, "Links"))
+//@ domain links-is-a-list: isList(lookupStr(s.shardNodeFile.substrate, "Links"))
 //@ loop 0 invariant pos-algebra: 0 <= itpos(lnkIter) && itpos(lnkIter) <= itlen(lnkIter) && itlen(lnkIter) == nkids(s.shardNodeFile) && at == startOf(s.shardNodeFile, itpos(lnkIter))
 //@ inst pos-algebra: f: s.shardNodeFile
 //@ inst pos-algebra: it: lnkIter
